@@ -25,6 +25,25 @@ def kwf(**kw):
   return 10 * vals[0] + vals[1]
 
 
+def kind(x):
+  """observes the type of its argument: 1, True and 1.0 are equal and hash alike, yet they are different arguments"""
+  return {int: 0, bool: 1, float: 2}[type(x)]
+
+
+def enc(x):
+  """a callee whose result is a bytes object"""
+  return str(x).encode()
+
+
+def mkerr(x):
+  """a callee whose RESULT is an exception object (returned, not raised)"""
+  return ValueError(f'made({x})')
+
+
+def lit(e):
+  return {'int': int, 'bool': bool, 'float': float}[e.get('k', 'int')](e['v'])
+
+
 def count_len(xs):
   """len(xs), counting its own evaluations in TICKS."""
   TICKS[0] += 1
@@ -60,24 +79,25 @@ def box(x):
   return Box(x)
 
 
-FUNCS = dict(inc=inc, add=add, tick=tick, boom=boom, box=box, kwf=kwf)
+FUNCS = dict(inc=inc, add=add, tick=tick, boom=boom, box=box, kwf=kwf, kind=kind, enc=enc, mkerr=mkerr)
 
 
-def build(e):
-  """Spec expression (JSON) -> lazy expression built with lazy_fns.trace."""
+def build(e, traced_literals=False):
+  """Spec expression (JSON) -> lazy expression built with lazy_fns.trace.  traced_literals: every literal argument is
+  itself a lazy value, trace(v) (the expression means the same)."""
   from ml_metrics._src.chainables import lazy_fns
   t = e['t']
   if t == 'lit':
-    return e['v']
+    return lazy_fns.trace(lit(e)) if traced_literals else lit(e)
   if t == 'call':
-    args = [build(a) for a in e['args']]
+    args = [build(a, traced_literals) for a in e['args']]
     if e['f'] == 'kwf':
       return lazy_fns.trace(kwf)(z=args[0], a=args[1], cache_result_=bool(e['c']))
     return lazy_fns.trace(FUNCS[e['f']])(*args, cache_result_=bool(e['c']))
   if t == 'attr':
-    return build(e['e']).val
+    return build(e['e'], traced_literals).val
   if t == 'item':
-    return build(e['e']).items[e['i']]
+    return build(e['e'], traced_literals).items[e['i']]
   raise ValueError(t)
 
 
@@ -85,7 +105,7 @@ def eager(e):
   """Independent eager evaluation of the same expression (plain Python)."""
   t = e['t']
   if t == 'lit':
-    return e['v']
+    return lit(e)
   if t == 'call':
     args = [eager(a) for a in e['args']]
     if e['f'] == 'kwf':
